@@ -39,6 +39,10 @@ pub enum Scn {
         cleanup_every: u32,
         /// close-session packet injected for session i before its packet k
         closes: Vec<(usize, u32)>,
+        /// sessions whose LAST packet (a data packet) carries the close-session flag itself (RFC 5651 allows the A
+        /// flag on any packet): its payload still counts
+        #[serde(default)]
+        flag_last: Vec<usize>,
     },
     /// every listed sequence of filter operations, each prefix probed with packets of every (endpoint, TSI)
     Filter { seqs: Vec<Vec<FilterOp>> },
@@ -150,12 +154,19 @@ pub fn gen(idx: u64, rng: &mut Rng, tier: Tier) -> Scn {
             closes.push((s, rng.range(0, 80) as u32));
         }
     }
+    let mut flag_last = Vec::new();
+    for s in 0..n {
+        if !closes.iter().any(|(c, _)| *c == s) && rng.chance(0.35) {
+            flag_last.push(s);
+        }
+    }
     Scn::Demux {
         sessions,
         recv,
         jitter_us: if rng.chance(0.5) { *rng.pick(&[1u64, 100, 1000]) } else { 0 },
         cleanup_every: *rng.pick(&[0u32, 1, 3, 10]),
         closes,
+        flag_last,
     }
 }
 
@@ -211,7 +222,7 @@ fn check_listener(ctx: &Ctx, events: &[SessEvent], what: &str, dropped: bool) {
     }
 }
 
-fn run_demux(sessions: &[SenderScn], recv: &RecvSpec, jitter_us: u64, cleanup_every: u32, closes: &[(usize, u32)], ctx: &Ctx, scratch: &Path) {
+fn run_demux(sessions: &[SenderScn], recv: &RecvSpec, jitter_us: u64, cleanup_every: u32, closes: &[(usize, u32)], flag_last: &[usize], ctx: &Ctx, scratch: &Path) {
     let mut sess = Vec::new();
     for s in sessions {
         match run_sender(s, ctx, scratch) {
@@ -231,6 +242,13 @@ fn run_demux(sessions: &[SenderScn], recv: &RecvSpec, jitter_us: u64, cleanup_ev
                 }
             }
             v.push((p.t_us, p.bytes.clone()));
+        }
+        if flag_last.contains(&i) {
+            if let Some(last) = v.last_mut() {
+                if last.1.len() > 1 {
+                    last.1[1] |= 0x02; // A (close session) flag of the LCT header
+                }
+            }
         }
         streams.push(v);
     }
@@ -357,6 +375,32 @@ fn run_demux(sessions: &[SenderScn], recv: &RecvSpec, jitter_us: u64, cleanup_ev
                     i, sessions[i].spec.endpoint, sessions[i].spec.tsi, a, streams.len() - 1, m
                 ),
             );
+        }
+    }
+    // a session whose last data packet carries the A flag delivers all its objects (clean channel, no session
+    // timeout in the way): the payload of the flagged packet counts
+    if recv.session_timeout_ms.is_none() {
+        for i in flag_last {
+            if closes.iter().any(|(c, _)| c == i) || sess[*i].trace.pkts.last().map(|p| p.dec.toi == 0 && sess[*i].trace.pkts.len() < 2).unwrap_or(true) {
+                continue;
+            }
+            for o in &sess[*i].objs {
+                let st = merged.state.borrow();
+                let ok = st.writers.iter().any(|w| w.endpoint == eps[*i] && w.tsi == sessions[*i].spec.tsi && w.toi == o.toi && w.terminal == Some(Terminal::Complete) && w.data == o.content);
+                // (objects with several transfers / carousel may be cut by the close: only single-transfer objects)
+                let single = sessions[*i].objects.get(o.idx).map(|x| x.max_transfer_count <= 1 && x.carousel.is_none()).unwrap_or(false);
+                if !ok && single && sess[*i].trace.finished {
+                    violate(
+                        ctx,
+                        "C18/flagged-data-packet-payload-lost",
+                        "-",
+                        format!("session {} (tsi {}): its last packet carries the close-session flag AND data; toi={} was not delivered although every packet was pushed", i, sessions[*i].spec.tsi, o.toi),
+                    );
+                }
+            }
+        }
+        if !flag_last.is_empty() {
+            ctx.borrow_mut().count_fault("close-flag-on-data-packet");
         }
     }
     // callbacks carry the session's own endpoint and TSI: every writer of the merged run belongs to one session
@@ -492,7 +536,7 @@ fn run_filter(seqs: &[Vec<FilterOp>], ctx: &Ctx) {
 
 pub fn run(scn: &Scn, ctx: &Ctx, scratch: &Path) {
     match scn {
-        Scn::Demux { sessions, recv, jitter_us, cleanup_every, closes } => run_demux(sessions, recv, *jitter_us, *cleanup_every, closes, ctx, scratch),
+        Scn::Demux { sessions, recv, jitter_us, cleanup_every, closes, flag_last } => run_demux(sessions, recv, *jitter_us, *cleanup_every, closes, flag_last, ctx, scratch),
         Scn::Filter { seqs } => run_filter(seqs, ctx),
     }
 }
@@ -549,31 +593,32 @@ impl Prop for C18 {
                     }
                 }
             }
-            Scn::Demux { sessions, recv, jitter_us, cleanup_every, closes } => {
+            Scn::Demux { sessions, recv, jitter_us, cleanup_every, closes, flag_last } => {
                 if sessions.len() > 1 {
                     for i in 0..sessions.len() {
                         let mut v = sessions.clone();
                         v.remove(i);
                         let c: Vec<(usize, u32)> = closes.iter().filter(|(s, _)| *s != i).map(|(s, k)| (if *s > i { s - 1 } else { *s }, *k)).collect();
-                        out.push(Scn::Demux { sessions: v, recv: recv.clone(), jitter_us: *jitter_us, cleanup_every: *cleanup_every, closes: c });
+                        let fl: Vec<usize> = flag_last.iter().filter(|s| **s != i).map(|s| if *s > i { s - 1 } else { *s }).collect();
+                        out.push(Scn::Demux { sessions: v, recv: recv.clone(), jitter_us: *jitter_us, cleanup_every: *cleanup_every, closes: c, flag_last: fl });
                     }
                 }
                 for i in 0..closes.len() {
                     let mut c = closes.clone();
                     c.remove(i);
-                    out.push(Scn::Demux { sessions: sessions.clone(), recv: recv.clone(), jitter_us: *jitter_us, cleanup_every: *cleanup_every, closes: c });
+                    out.push(Scn::Demux { sessions: sessions.clone(), recv: recv.clone(), jitter_us: *jitter_us, cleanup_every: *cleanup_every, closes: c, flag_last: flag_last.clone() });
                 }
                 if *jitter_us != 0 {
-                    out.push(Scn::Demux { sessions: sessions.clone(), recv: recv.clone(), jitter_us: 0, cleanup_every: *cleanup_every, closes: closes.clone() });
+                    out.push(Scn::Demux { sessions: sessions.clone(), recv: recv.clone(), jitter_us: 0, cleanup_every: *cleanup_every, closes: closes.clone(), flag_last: flag_last.clone() });
                 }
                 if *cleanup_every > 1 {
-                    out.push(Scn::Demux { sessions: sessions.clone(), recv: recv.clone(), jitter_us: *jitter_us, cleanup_every: 1, closes: closes.clone() });
+                    out.push(Scn::Demux { sessions: sessions.clone(), recv: recv.clone(), jitter_us: *jitter_us, cleanup_every: 1, closes: closes.clone(), flag_last: flag_last.clone() });
                 }
                 for (i, s) in sessions.iter().enumerate() {
                     for c in shrink_sender_scn(s).into_iter().take(12) {
                         let mut v = sessions.clone();
                         v[i] = c;
-                        out.push(Scn::Demux { sessions: v, recv: recv.clone(), jitter_us: *jitter_us, cleanup_every: *cleanup_every, closes: closes.clone() });
+                        out.push(Scn::Demux { sessions: v, recv: recv.clone(), jitter_us: *jitter_us, cleanup_every: *cleanup_every, closes: closes.clone(), flag_last: flag_last.clone() });
                     }
                 }
             }
